@@ -133,6 +133,7 @@ pub fn run_case(line: &str) -> String {
         "inj" => run_inj(&w[1..]),
         "aes" => crate::aescen::run(&w[1..]),
         "slt" => crate::slotscen::run(&w[1..]),
+        "dws" => crate::dwscen::run(&w[1..]),
         k => format!("ERR unknown-kind {}", k),
     }
 }
